@@ -140,7 +140,19 @@ def compile_in_module(name: str, src_e, arity: int, floats):
     argn = [f"a{i}" for i in range(arity)]
     modname = f"mxlverif_cgmod_{next(_counter)}"
     lines = [f"{k} = {fexpr.to_float(Fraction(v))!r}" for k, v in floats]
-    src = "\n".join(lines) + f"\n\n\ndef {name}({', '.join(argn)}):\n    return {src_expr_x(src_e, argn)}\n"
+    if isinstance(src_e, dict):      # statement-level body (conditionals, local imports), see gen_cond_src
+        for hname, hsrc in src_e.get("helper_modules", []):
+            if hname not in sys.modules:
+                hfile = f"<{hname}>"
+                linecache.cache[hfile] = (len(hsrc), None, hsrc.splitlines(True), hfile)
+                hmod = types.ModuleType(hname)
+                hmod.__file__ = hfile
+                sys.modules[hname] = hmod
+                exec(compile(hsrc, hfile, "exec"), hmod.__dict__)  # noqa: S102
+        body = "\n".join("    " + ln for ln in src_e["body"])
+        src = "\n".join(lines + src_e.get("module_level", [])) + f"\n\n\ndef {name}({', '.join(argn)}):\n{body}\n"
+    else:
+        src = "\n".join(lines) + f"\n\n\ndef {name}({', '.join(argn)}):\n    return {src_expr_x(src_e, argn)}\n"
     filename = f"<{modname}>"
     linecache.cache[filename] = (len(src), None, src.splitlines(True), filename)
     mod = types.ModuleType(modname)
@@ -185,6 +197,15 @@ class FnPool:
             sys.modules.pop(mod.__name__, None)
             linecache.cache.pop(mod.__file__, None)
         self.mods = []
+
+
+def cleanup_helpers():
+    """remove the helper modules of function-local imports (once per worker call, after every model is done)"""
+    import sys
+
+    for k in [k for k in sys.modules if k.startswith("mxlverif_helper_")]:
+        sys.modules.pop(k, None)
+        linecache.cache.pop(f"<{k}>", None)
 
 
 def build_model(content, rng=None, pool=None):
@@ -253,6 +274,115 @@ def attach_module_consts(rng, d):
     d["src"] = src
     d["e"], d["e2"] = e1, e2
     return d
+
+
+COND_VALUES = (-2, -1, 0, 1, 2)      # variable / parameter values of the conditional strata
+
+
+def gen_cond_src(rng, arity):
+    """a function body with control flow on its arguments: if / elif / else returns (also without a final else, the
+    remaining case returned after the chain), conditional expressions, every comparison operator (also chained,
+    also against 0 and against other arguments, so that boundaries and signs are hit at small integer states),
+    magnitudes (x**2)**0.5, and a helper imported inside the body while the function's module binds another
+    callable to the same name"""
+    argn = [f"a{i}" for i in range(arity)]
+
+    def E():
+        return fexpr.src_expr(fexpr.gen_expr(rng, arity, 1, consts=(-2, -1, 1, 2, 3)), argn)
+
+    def atom():
+        r = rng.random()
+        if r < 0.6:
+            return rng.choice(argn)
+        if r < 0.85:
+            return f"({rng.choice(argn)} {rng.choice('+-')} {rng.choice(argn)})"
+        return repr(float(rng.choice([-1, 0, 1, 2])))
+
+    def const():
+        return repr(float(rng.choice([-1, 0, 0, 0, 1, 2])))
+
+    def C():
+        a = atom()
+        if rng.random() < 0.15:
+            lo, hi = sorted(rng.sample([-2, -1, 0, 1, 2], 2))
+            return f"{float(lo)!r} {rng.choice(['<', '<='])} {a} {rng.choice(['<', '<='])} {float(hi)!r}"
+        b = const() if rng.random() < 0.6 else rng.choice(argn)
+        return f"{a} {rng.choice(['<', '<=', '>', '>=', '<', '<=', '==', '!='])} {b}"
+
+    out = {"module_level": [], "helper_modules": []}
+    shape = rng.choice(["ifelse", "elif_else", "elif_noelse", "elif_noelse", "if_return", "if_return", "ifexp",
+                        "nested_ifexp", "magnitude", "magnitude", "local_import"])
+    # (abs / min / max of a symbolic argument are always refused by fn_to_sympy -- KNOWN_FNS results are wrapped
+    #  in sympy.Float -- so they cannot reach generated code; magnitudes are written (x**2)**0.5)
+    if shape == "ifelse":
+        body = [f"if {C()}:", f"    return {E()}", "else:", f"    return {E()}"]
+    elif shape == "elif_else":
+        body = [f"if {C()}:", f"    return {E()}", f"elif {C()}:", f"    return {E()}", "else:", f"    return {E()}"]
+    elif shape == "elif_noelse":
+        body = [f"if {C()}:", f"    return {E()}", f"elif {C()}:", f"    return {E()}"]
+        if rng.random() < 0.4:
+            body += [f"elif {C()}:", f"    return {E()}"]
+        body += [f"return {E()}"]
+    elif shape == "if_return":
+        guard = f"{rng.choice(argn)} {rng.choice(['<', '<=', '>', '>='])} 0.0" if rng.random() < 0.6 else C()
+        body = [f"if {guard}:", f"    return {rng.choice(['0.0', E()])}", f"return {E()}"]
+    elif shape == "ifexp":
+        body = [f"return {E()} if {C()} else {E()}"]
+    elif shape == "nested_ifexp":
+        body = [f"return {E()} if {C()} else ({E()} if {C()} else {E()})"]
+    elif shape == "magnitude":
+        body = [f"return ({rng.choice(argn)} ** 2.0) ** 0.5 + {E()}"]
+    else:
+        hm = f"mxlverif_helper_{rng.randrange(1 << 40)}"
+        out["helper_modules"] = [[hm, "def helper(u, v):\n    return u * v + 1.0\n"]]
+        out["module_level"] = ["", "", "def helper(u, v):", "    return u - v"]     # another callable, same name
+        a, b = rng.choice(argn), rng.choice(argn)
+        body = [f"from {hm} import helper", "", f"return helper({a}, {b}) + {E()}"]
+    out["body"] = body
+    out["shape"] = shape
+    return out
+
+
+def cond_grid_contents():
+    """Seed-independent: one small model (variable x, parameter p, one reaction r(x, p) with dx/dt = -r, one derived
+    value) per representative control-flow body and per parameter value in {-1, 0, 1}; to be evaluated at every
+    x in {-2, …, 2}: every comparison operator with the threshold in reach, a sign guard, elif chains with and
+    without final else, nested / chained conditions, a magnitude, a local import shadowing a module-level name"""
+    bodies = []
+    for op in ("<", "<=", ">", ">=", "==", "!="):
+        bodies.append([f"if a0 {op} a1:", "    return (a0 + 1.0)", "else:", "    return (a0 - 2.0)"])
+        bodies.append([f"return (a0 * 2.0) if a0 {op} 0.0 else (a1 - a0)"])
+    bodies += [
+        ["if a0 < 0.0:", "    return 0.0", "return (a0 * a1)"],
+        ["if a0 >= 0.0:", "    return (a0 + a1)", "return (0.0 - a0)"],
+        ["if a0 < a1:", "    return (a0 - a1)", "elif a0 <= 1.0:", "    return (a0 * 2.0)", "return (a1 + 3.0)"],
+        ["if a0 < -1.0:", "    return 1.0", "elif a0 < 0.0:", "    return 2.0", "elif a0 == 0.0:", "    return 3.0",
+         "else:", "    return (a0 + a1)"],
+        ["return 1.0 if a0 < a1 else (2.0 if a0 == a1 else 3.0)"],
+        ["if -1.0 <= a0 < 1.0:", "    return (a0 + a1)", "else:", "    return (a0 * a1)"],
+        ["return (a0 ** 2.0) ** 0.5 + a1"],
+        ["return ((a0 - a1) ** 2.0) ** 0.5"],
+    ]
+    out = []
+    for bi, body in enumerate(bodies):
+        for pv in ("-1", "0", "1"):
+            src = {"body": body, "module_level": [], "helper_modules": [], "shape": f"grid{bi}"}
+            out.append(_grid_content(src, pv, f"g{bi}"))
+    for pv in ("-1", "0", "1"):
+        hm = f"mxlverif_helper_grid{pv.replace('-', 'm')}"
+        src = {"body": [f"from {hm} import helper", "", "return helper(a0, a1) + a0"],
+               "module_level": ["", "", "def helper(u, v):", "    return u - v"],
+               "helper_modules": [[hm, "def helper(u, v):\n    return u * v + 1.0\n"]], "shape": "grid-local-import"}
+        out.append(_grid_content(src, pv, "gimp"))
+    return out
+
+
+def _grid_content(src, pv, name):
+    fn = {"args": ["x", "p"], "e": ["a", 0], "rich": True, "name": name, "src": {"e": src, "floats": []}}
+    der = {"args": ["p", "x"], "e": ["a", 0], "rich": True, "name": name + "d",
+           "src": {"e": dict(src, shape=src["shape"] + "-swapped"), "floats": []}}
+    return {"vars": [["x", {"v": "1"}]], "pars": [["p", {"v": pv}]], "derived": [["d", der]],
+            "rxns": [["r", dict(fn, st=[["x", {"c": "-1"}]])]]}
 
 
 def eval_rich(e, xs, guard=True):
@@ -334,7 +464,7 @@ def rich_classes(content) -> set:
             walk(x, names)
 
     for f in all_fns(content):
-        if f.get("rich"):
+        if f.get("rich") and not isinstance(f["src"]["e"], dict):
             walk(f["src"]["e"], list(f["args"]))
     return out
 
@@ -519,7 +649,10 @@ def gen_content(rng, *, n_vars=(1, 4), n_pars=(0, 3), n_comps=(1, 7), p_ia_par=0
         d = {"args": args, "e": gen_fn_expr(rng, args, depth)}
         if rich:
             d["rich"] = True
-            d["src"] = {"e": gen_rich_expr(rng, len(args), depth + 1), "floats": []}
+            if rich == "cond":
+                d["src"] = {"e": gen_cond_src(rng, len(args)), "floats": []}
+            else:
+                d["src"] = {"e": gen_rich_expr(rng, len(args), depth + 1), "floats": []}
         elif rng.random() < p_modconst:
             attach_module_consts(rng, d)
         if name_fn is not None:
